@@ -443,4 +443,93 @@ proof {
     }
 }
 @end
+
+@fn src/filedb/inner/dbxxx.rs | impl<KT: DbMapKeyType> DbXxxObjectSafe<KT> for FileDbXxxInner<KT> | del_kt
+@opts rlimit=300
+@serves C01 C03 C05 C06 C08
+@requires
+old(self).inv(), small(old(self).mb()), key_kt.bytes().len() <= 0x1_0000,
+forall|w: MapW, o: nat| #[trigger] map_ok(old(self).mb(), w) && #[trigger] is_key(w.kw, o) ==> kkey(w.kw, o).len() <= 0x1_0000
+@ensures
+final(self).same_env(old(self)),
+old(self).healthy() ==> r is Ok,
+r is Ok && r->Ok_0 is Some ==> forall|w: MapW| #[trigger] map_ok(old(self).mb(), w) ==>
+    lookup(w, key_kt.bytes()) == Some(r->Ok_0->Some_0@)
+    && exists|w2: MapW| #[trigger] map_ok(final(self).mb(), w2) && is_remove(w, w2, key_kt.bytes()),
+r is Ok && r->Ok_0 is None ==> final(self).same_bytes(old(self)) && forall|w: MapW| #[trigger] map_ok(old(self).mb(), w) ==> !has_key(w, key_kt.bytes()),
+r is Ok && old(self).dirty_ok() ==> final(self).dirty_ok()
+@entry
+let ghost m = old(self).mb();
+let ghost key = key_kt.bytes();
+let ghost b = bucket_of(key, m.n);
+let ghost w0: MapW = choose|w: MapW| #[trigger] map_ok(m, w);
+let ghost s0 = w0.cs[b];
+let ghost mut gopt: Option<(nat, nat)> = None;
+let ghost mut i0: int = 0;
+let ghost mut hb1: Seq<u8> = m.hb;
+let ghost mut kb1: Seq<u8> = m.kb;
+proof { lemma_bucket_range(key, m.n); }
+@after-call find_in_hash_buckets_kt 1
+proof {
+    gopt = match opt { Some(t) => Some((t.0.val as nat, t.1.val as nat)), None => None };
+    assert(find_post(m, w0, key, gopt));
+    assert(chain_ok(w0.kw, bucket(m.hb, b), s0, b, m.n));
+    if gopt is Some {
+        let k0 = gopt->Some_0.0;
+        i0 = choose|i: int| 0 <= i < s0.len() && #[trigger] s0[i] == k0 && kkey(w0.kw, k0) == key && gopt->Some_0.1 == prev_of(s0, i);
+        lemma_chain_member(w0.kw, bucket(m.hb, b), s0, b, m.n, i0);
+        if i0 > 0 { lemma_chain_member(w0.kw, bucket(m.hb, b), s0, b, m.n, i0 - 1); lemma_key_decodes(m.kb, m.kpm, w0.kw, s0[i0 - 1]); }
+        lemma_key_decodes(m.kb, m.kpm, w0.kw, k0);
+        lemma_val_link(w0.kw, w0.vw, w0.vown, k0);
+        assert(key_at(self.kf().bytes, m.kpm, w0.kw, k0));
+        assert(val_at(self.vf().bytes, m.vpm, w0.vw, kvoff(w0.kw, k0)));
+    }
+}
+@after-call read_piece 1
+proof {
+    assert(key_at(m.kb, m.kpm, w0.kw, s0[i0]));
+    lemma_val_decodes(m.vb, m.vpm, w0.vw, kvoff(w0.kw, s0[i0]));
+}
+@before-call read_piece 2
+proof { assert(key_at(self.kf().bytes, m.kpm, w0.kw, s0[i0 - 1])); }
+@before-call write_piece 1
+proof {
+    let p = s0[i0 - 1];
+    assert(heap_ok(self.kf().bytes, m.kpm, w0.kw) && key_pre(self.kf().bytes, m.kpm, w0.kw, false, p));
+}
+@after-call write_piece 1
+proof { kb1 = self.kf().bytes; }
+@after-call write_key_piece_offset 1
+proof { hb1 = self.hf().bytes; lemma_rd_count_same(m.hb, hb1); }
+@before-call delete_piece 1
+proof { assert(val_at(self.vf().bytes, m.vpm, w0.vw, kvoff(w0.kw, s0[i0]))); }
+@before-call delete_piece 2
+proof {
+    let ko = s0[i0];
+    if i0 > 0 {
+        let p = s0[i0 - 1];
+        let kc = SlotC::Key(kkey(w0.kw, p), kvoff(w0.kw, p), knext(w0.kw, ko));
+        let kn = key_need(kkey(w0.kw, p), kvoff(w0.kw, p), knext(w0.kw, ko));
+        lemma_roundup_key(kkey(w0.kw, p), kvoff(w0.kw, p), knext(w0.kw, ko));
+        lemma_prev_rewrite_keeps(m.kb, kb1, m.kpm, w0.kw, p, ko, kn, kc);
+    } else {
+        assert(key_at(self.kf().bytes, m.kpm, w0.kw, ko));
+    }
+}
+@exit
+proof {
+    if r__ is Ok {
+        let m2 = self.mb();
+        if gopt is Some {
+            let ko = gopt->Some_0.0;
+            lemma_count_bytes(hb1, m2.hb, m.n);
+            lemma_del_kt_found(m, m2, kb1, hb1, w0, key, ko, gopt->Some_0.1, i0);
+        } else {
+            assert forall|w: MapW| #[trigger] map_ok(m, w) implies !has_key(w, key) by {
+                assert(find_post(m, w, key, gopt));
+            }
+        }
+    }
+}
+@end
 @endmod
